@@ -18,7 +18,7 @@ CHECKS = {
  "C04": ("exploration", "property-based differential testing against an independent container-file reader/writer and reference codecs (own inflate/snappy/CRC-32, Python zlib/bz2/lzma)",
          "Forward (library writes, reference reads) and reverse (reference writes in generated layouts, library reads) over schemas, value sequences, codecs, block partitions and metadata layouts.",
          "Trusts refocf/refbin/refcodec (golden self-tests at start-up) and Python's standard codecs; zstandard has no independent codec here.", "DESIGN.md §4 C04"),
- "C06": ("exploration", "property-based testing plus bounded-exhaustive enumeration: every strict prefix, byte mutations, random strings and all <=2-byte strings; conformance/fixpoint/prefix-freeness/decoder-agreement oracles",
+ "C06": ("exploration", "property-based testing plus bounded-exhaustive enumeration: every strict prefix, byte mutations, random strings and all <=2-byte strings; conformance/fixpoint/prefix-freeness/decoder-agreement oracles; thorough tier adds a coverage-guided libFuzzer campaign (cargo-fuzz target c06_datum) with the same oracle inside the target",
          "Every input on which decoding returns Ok is checked for strict conformance, validate(), re-encode fixpoint; strict prefixes of valid data must err; the two decoders must agree.",
          "Allocation limit fixed at 1 MiB in the check's process; inputs stopped by that limit are excluded from the agreement oracle.", "DESIGN.md §4 C06"),
  "C13": ("fault_enumeration", "generated write scenarios with exhaustive fault injection: error at every sink call index (write and flush, Other and Interrupted) under short-write plans",
@@ -38,7 +38,7 @@ CHECKS = {
          "Each successful write must emit exactly marker+fingerprint+datum and read back alone via both readers, also after failed writes; all 80 header bit flips and all truncations must be rejected without touching the datum.",
          "Expected fingerprint from the harness's reference canonical form (schemas without logical types, whose canonical form is C12's known finding).", "DESIGN.md §4 C18"),
 
- "C11": ("exploration", "property-based testing with structural JSON mutation, arbitrary JSON/text generation and a grammar generator; totality, operation-totality, well-formedness-walker and completeness oracles",
+ "C11": ("exploration", "property-based testing with structural JSON mutation, arbitrary JSON/text generation and a grammar generator; totality, operation-totality, well-formedness-walker and completeness oracles; thorough tier adds a coverage-guided libFuzzer campaign (cargo-fuzz target c11_schema) with the same oracle inside the target",
          "Mutated, arbitrary and generated schema texts: the three parser entry points return and agree; every operation on an accepted schema completes; accepted schemas pass the harness's well-formedness walker; generated well-formed schemas are accepted.",
          "Well-formedness as implemented by the harness's walker over the library's public Schema fields; hangs are not decided (only panics/errors).", "DESIGN.md §4 C11"),
 
@@ -61,10 +61,10 @@ CHECKS = {
          "Verdict Full implies that sampled edge-biased values written with W read with R; pairs built from always-safe steps are never reported incompatible; every schema is compatible with itself; mutual_read is symmetric; verdicts are repeatable and address-independent.",
          "Soundness is sampled with 5-8 values per pair; failures are attributed to root-cause classes by causal re-tests.", "DESIGN.md §4 C09"),
 
- "C05": ("exploration", "structure-aware hostile input generation plus bounded-exhaustive short inputs, run in one child process per allocation limit with a counting global allocator, panic capture, element-count work bounds and abort attribution by in-flight replay",
+ "C05": ("exploration", "structure-aware hostile input generation plus bounded-exhaustive short inputs, run in one child process per allocation limit with a counting global allocator, panic capture, element-count work bounds and abort attribution by in-flight replay; thorough tier adds coverage-guided libFuzzer campaigns (cargo-fuzz targets c05_datum, c05_container) with the same oracle inside the target",
          "Every reading entry point on hostile datums, container files and decompression bombs under limits 4 KiB / 64 KiB / 1 MiB (16 MiB thorough): no panic, no abort, visited elements bounded by input size + limit, no single allocation above max(limit, 64 x input) + slack.",
          "Allocation is measured per calling thread; constant-size codec state is allowed 256 KiB of slack; data nesting depth is bounded by the generator; a true hang would show as a child that never returns.", "DESIGN.md §4 C05"),
- "C16": ("exploration", "property-based testing over a compiled corpus of 27 serde types plus a dynamic serializer/deserializer driven by generated (schema, value) pairs; round-trip, differential (schema-aware vs generic route, reference decoder) and byte-count oracles across block sizes",
+ "C16": ("exploration", "property-based testing over a compiled corpus of 33 serde types plus a dynamic serializer/deserializer driven by generated (schema, value) pairs; round-trip, differential (schema-aware vs generic route, reference decoder) and byte-count oracles across block sizes",
          "Every generated value of every corpus type and every generated (schema, value) pair: schema-aware bytes are read back equal by the schema-aware deserializer, accepted by the generic and the reference decoder as exactly one conforming datum, the returned count equals the bytes emitted, for block sizes none/1/small/large; for the coinciding subset the generic route gives the same bytes up to block partitioning and recovers the value.",
          "The corpus is hand-written (a proc-macro cannot be driven by a run-time generator); the dynamic side covers shapes by replaying generated values through every serde data-model method the schema permits.", "DESIGN.md §4 C16"),
  "C17": ("exploration", "property-based testing over a compiled corpus of derived types x generated values; determinism, well-formedness walker, JSON round trip and serialize/deserialize/container round-trip oracles",
